@@ -24,6 +24,7 @@ SHAPES = [
     {"x": 0.5, "n": None},
     {"k": "é"},
     {"key1": "value one", "key2": 12345, "key3": [1.5, "s", None]},
+    {},  # the empty state point is a job like any other
 ]
 BYSTANDERS = [{"by": 1}, {"by": 2, "z": {"y": [1]}}]
 REPL = [b"0", b"1", b"9", b'"', b"{", b"}", b"[", b",", b":", b" ", b"a", b"e", b".", b"-", b"\x00", b"\x80"]
